@@ -36,7 +36,15 @@ def run(cx, chk):
     chk.rule("C10.R4", "the estimator is sized window + protected + probationary")
     chk.rule("C10.R5", "non-use operations (peek*, contains, len, per-segment accessors, ...) reach no mutation: they neither promote nor refresh")
     chk.rule("C10.R6", "purge empties every retained list of the cache")
+    chk.rule("C10.R7", "'estimated frequency is strictly lower': TinyLFU::lt(a, b) returns estimate(a) < estimate(b) on every path (engine of C11.R4), "
+                       "and the bound the demotion guard reads (protected_cap) is the protected segment's own bound in constructors, clones and builders")
+    from . import c11
+    from .lib.report import Relabel
     for cfg, F in cx.cfgs():
+        c11.r3r4(cx, Relabel(chk, {"C11.R4": "C10.R7"}, keep=lambda key: key.split(":")[-1] == "lt" or key == "lt"), cfg, F)
+        composite.clone_bounds(cx, chk, cfg, F, "C10.R7", only=("SegmentedCache", "WTinyLFUCache"))
+        composite.builder_setters(cx, chk, cfg, F, "C10.R7", only=("SegmentedCacheBuilder", "WTinyLFUCacheBuilder"))
+        accessor_bounds(cx, chk, cfg, F)
         composite.policy_hygiene(cx, chk, cfg, F, "WTinyLFUCache", "C10.R5", "C10.R6")
         put(cx, chk, cfg, F)
         recording(cx, chk, cfg, F)
@@ -257,6 +265,24 @@ def is_candidate_ret(p, w, n):
     vals = dict(zip(rv[4], rv[3]))
     rec = payload_terms(p, w, n)
     return is_payload(vals.get("key"), n, "key", rec) and is_payload(vals.get("value"), n, "val", rec)
+
+
+def accessor_bounds(cx, chk, cfg, F):
+    """X_cap() of the segmented main cache returns the field X_size (the demotion guard of put compares protected_len with protected_cap)"""
+    adt = api.CACHES["SegmentedCache"]
+    for f, im in api.cache_methods(F, adt):
+        if im["trait"] or not f["name"].endswith("_cap") or F.body(f["path"]) is None:
+            continue
+        seg = f["name"][:-4]
+        for p in cx.paths(cfg, f["path"]):
+            rv = p.ret
+            want = ("load", ("H", ("param", 1, True), (seg + "_size",)), 0)
+            alt = ("proj", ("param", 1, True), (seg + "_size",))
+            lenient = isinstance(rv, tuple) and rv[0] == "load" and rv[1][0] == "H" and rv[1][2] in ((seg + "_size",), (seg, "cap"))
+            if rv == want or rv == alt or lenient:
+                chk.ob("C10.R7", "%s:%s" % (cfg, f["q"]), "returns the %s bound" % seg)
+            else:
+                chk.violation("C10.R7", "%s|bound" % f["q"], "%s returns %s, not the bound of the %s segment" % (f["q"], fmt_val(rv)[:60], seg), f["span"]["file"], f["span"]["lo"], f["q"], None, cfg)
 
 
 def recording(cx, chk, cfg, F):
